@@ -25,6 +25,7 @@ static std::string attr(const DOMElement* e, const char* name) {
 }
 
 #include <chrono>
+#include <thread>
 static bool g_stamp = false;                                      // api op `T`: "@<ms>" tokens before events and content
 static std::chrono::steady_clock::time_point g_stampT0;
 struct Rec {
@@ -198,7 +199,7 @@ static std::string joinToks(const Rec& rec, size_t from = 0) {
 	return out;
 }
 
-// serial: <engine>\t<chart>\t<prefix events>\t<continuation events>\t<hex xml>\t<hex xml of another document>
+// serial: <engine>\t<chart>\t<prefix events>\t<continuation events, "~<ms>" = wait>\t<hex xml>\t<hex xml of another document>
 //  -> A=<continuation trace of the original> || B=<continuation trace of the restored copy> || FOREIGN=<rejected|accepted> || SER=<ok|err:..>
 static std::string serialOne(const std::vector<std::string>& f) {
 	std::string xml, other;
@@ -238,6 +239,13 @@ static std::string serialOne(const std::vector<std::string>& f) {
 		std::vector<std::string> cont = f[3] == "-" ? std::vector<std::string>() : uv::split(f[3], ',');
 		bool okA = runQuiescent(a, recA, 60), okB = status == "ok" ? runQuiescent(b, recB, 60) : false;
 		for (const std::string& ev : cont) {
+			if (ev.size() > 1 && ev[0] == '~') {
+				// "~<ms>": let that much time pass (pending delayed events become due in both), then settle both
+				std::this_thread::sleep_for(std::chrono::milliseconds(atoi(ev.c_str() + 1)));
+				if (okA) okA = runQuiescent(a, recA, 60);
+				if (okB) okB = runQuiescent(b, recB, 60);
+				continue;
+			}
 			if (okA) { a.receive(Event(ev, Event::EXTERNAL)); okA = runQuiescent(a, recA, 60); }
 			if (okB) { b.receive(Event(ev, Event::EXTERNAL)); okB = runQuiescent(b, recB, 60); }
 		}
